@@ -94,6 +94,10 @@ CATALOG = {
     },
     "C11": {
         "drivers": [("const", {"quick": 400, "thorough": 20000}, {})],
+        # the enumerated (shape, axis choice, keepdims) vectors of the reduction model, on constant polynomials
+        "models": [{"module": "MC_Reduce", "cfg": {"quick": "MC_Reduce_quick", "thorough": "MC_Reduce_thorough"},
+                    "extract": "reduce_vectors", "replay": "run_const_vector", "chunk": 40,
+                    "limit": {"quick": 3000, "thorough": 60000}}],
     },
     "C12": {
         "drivers": [("dtype", {"quick": 500, "thorough": 20000}, {})],
